@@ -444,8 +444,12 @@ type Net struct {
 	mu   sync.Mutex
 }
 
+// netTimeout is the default watchdog time of a Net; a stream that runs many protocol instances
+// concurrently on a loaded machine may raise it (one process runs one stream).
+var netTimeout = 120 * time.Second
+
 func newNet(protocol string, ids []ID, rngs map[ID]io.Reader, hook Hook) *Net {
-	n := &Net{Protocol: protocol, IDs: sortedIDs(ids), Hook: hook, Timeout: 120 * time.Second,
+	n := &Net{Protocol: protocol, IDs: sortedIDs(ids), Hook: hook, Timeout: netTimeout,
 		Status: map[ID]string{}, rngs: map[ID]*CountingReader{}}
 	for _, id := range n.IDs {
 		r, ok := rngs[id]
